@@ -16,6 +16,8 @@ STR_DOM = [b"", b"a", b"bb", b"needle", b"a b", b"Abc"]
 VARS0 = [("xi", "i"), ("xj", "i"), ("xb", "b"), ("xf", "f"), ("xs", "s"), ("xt", "s")]
 # the same, with the names of built-in modules (which the rules do not import): externals and module structures share the
 # scanner's object table
+# long names sharing prefixes (the object tables are hash tables with few buckets: a lookup must compare whole keys)
+VARS_LONG = [("opt_level", "i"), ("opt_level_max", "i"), ("opt", "b"), ("option_f", "f"), ("opt_s", "s"), ("opt_level_maximum", "s")]
 VARS_MOD = [("math", "i"), ("pe", "i"), ("console", "b"), ("hash", "f"), ("time", "s"), ("string", "s")]
 
 
@@ -72,7 +74,22 @@ def fmt(typ, v):
 def build_case(seed_cid):
     seed, cid = seed_cid
     rng = random.Random(seed)
-    VARS = VARS0 if rng.random() < 0.75 else VARS_MOD
+    VARS = rng.choice([VARS0, VARS0, VARS0, VARS_MOD, VARS_LONG])
+    if VARS is VARS_LONG and rng.random() < 0.7:
+        # fresh names in every case: which identifiers share a bucket of a 64-bucket table depends on the names
+        w = "".join(rng.choice("abcdefghijklmnopqrstuvwxyz_0123456789") for _ in range(rng.randint(2, 5)))
+        w = "v" + w
+        VARS = [(w + "_level", "i"), (w + "_level_max", "i"), (w, "b"), (w + "ion_f", "f"), (w + "_s", "s"), (w + "_level_maximum", "s")]
+
+    def unknown_like(defined):
+        """an identifier that is NOT defined but is a prefix or an extension of a defined one"""
+        cands = set()
+        for n in defined:
+            cands.update(n[:k] for k in range(1, len(n)))
+            cands.update([n + "x", n + "_1", n + n[-1]])
+        cands -= set(defined)
+        cands -= set(v for v, _t in VARS)
+        return rng.choice(sorted(cands)) if cands else "nope"
     lines = ["cnew 0"]
     expect = []          # per emitted op that returns a code or a scan: ("rc", want) / ("scan", env copy) / None
     comp = {}            # name -> (type, value)
@@ -101,6 +118,8 @@ def build_case(seed_cid):
         if r < 0.2:
             # rules-level define
             name, _t = rng.choice(VARS + [("nope", "i")])
+            if rng.random() < 0.25:
+                name = unknown_like(comp)
             typ = rng.choice("ibfs") if rng.random() < 0.3 else (comp[name][0] if name in comp else "i")
             v = rnd_value(rng, typ)
             lines.append("rdef 0 %s %s %s" % (typ, hx(name), fmt(typ, v)))
@@ -119,6 +138,8 @@ def build_case(seed_cid):
         elif r < 0.6 and scanners:
             slot = rng.choice(sorted(scanners))
             name, _t = rng.choice(VARS + [("nope", "s")])
+            if rng.random() < 0.25:
+                name = unknown_like(comp)
             typ = rng.choice("ibfs") if rng.random() < 0.3 else (comp[name][0] if name in comp else "s")
             v = rnd_value(rng, typ)
             lines.append("sdef %d %s %s %s" % (slot, typ, hx(name), fmt(typ, v)))
@@ -145,6 +166,13 @@ def build_case(seed_cid):
             slot = rng.choice(sorted(scanners))
             lines.append("sdestroy %d" % slot)
             del scanners[slot]
+    if VARS is not VARS0 and VARS is not VARS_MOD and scanners:
+        # a burst of definitions of identifiers that do not exist (prefixes/extensions of existing ones): all refused
+        for _ in range(16):
+            slot = rng.choice(sorted(scanners))
+            name = unknown_like(comp)
+            lines.append("sdef %d i %s 1" % (slot, hx(name)))
+            expect.append(("rc", "sdef", E_ARG))
     # final read-back of everything still alive
     for slot in sorted(scanners):
         lines.append("scan s%d mem 0 - - -" % slot)
